@@ -318,6 +318,27 @@ func main() {
 				break
 			}
 		}
+		// the capability list is a SET: every rotation, the reversed list and a list with a repeated entry classify alike
+		if len(ts) >= 2 {
+			var spellings [][]evdev.EvType
+			for r := 1; r < len(ts); r++ {
+				spellings = append(spellings, append(append([]evdev.EvType{}, ts[r:]...), ts[:r]...))
+			}
+			rev := append([]evdev.EvType{}, ts...)
+			for i, j := 0, len(rev)-1; i < j; i, j = i+1, j-1 {
+				rev[i], rev[j] = rev[j], rev[i]
+			}
+			spellings = append(spellings, rev, append(append([]evdev.EvType{}, ts...), ts[0]), append([]evdev.EvType{ts[len(ts)-1]}, ts...))
+			for si, sp := range spellings {
+				res.Add("evaluations", 1)
+				di := input.VerifDeviceInfo(fmt.Sprintf("event%d", 9000+mask), "Sweep", physes[0], input.InputID{Bus: 3}, "", sp)
+				if got := codeHandler(di); got != want {
+					res.Violate("classification-depends-on-list-spelling", fmt.Sprintf("%s-vs-%s", got, want), fmt.Sprintf("capabilities %v spelled as %v (variant %d) are classified %s, the set is %s", ts, sp, si, got, want),
+						map[string]interface{}{"capabilities": fmt.Sprint(sp), "got": got, "expected": want})
+					break
+				}
+			}
+		}
 		// ... and grouped with one handler of every class, same and other location, both orders
 		if *tier == "thorough" || mask%16 == *shard%16 {
 			x := item{fmt.Sprintf("caps%03x", mask), ts, 0}
